@@ -16,12 +16,12 @@ import (
 // the observation of every register as a Gallina term of type `trace` (Model/OMap.v).
 
 type omapOp struct {
-	Op  string          `json:"op"`
-	R   int             `json:"r"`
-	K   string          `json:"k"`
-	V   int64           `json:"v"`
-	I   int             `json:"i"`
-	F   string          `json:"f"`
+	Op  string   `json:"op"`
+	R   int      `json:"r"`
+	K   string   `json:"k"`
+	V   int64    `json:"v"`
+	I   int      `json:"i"`
+	F   string   `json:"f"`
 	Doc []omapKV `json:"doc"`
 }
 
@@ -38,7 +38,7 @@ type om = orderedmap.Map[string, int64]
 
 var omapAlphabet = []string{"a", "b", "cc", "zz"}
 
-func gStr(s string) string { return fmt.Sprintf("%q%%string", s) }
+func gStr(s string) string { return fmt.Sprintf("%q", s) }
 func gZ(v int64) string {
 	if v < 0 {
 		return fmt.Sprintf("(%d)%%Z", v)
